@@ -99,8 +99,8 @@ func genWith(model string, minN, maxN int, exact bool) func(t *rapid.T) Case {
 			P = rapid.SampledFrom([]int{1, 2, 3}).Draw(t, "fewP")
 			B = rapid.SampledFrom([]int{1, 2}).Draw(t, "fewB")
 		}
-		switch sizeClass {
-		case 0, 1:
+		switch sizeClass { // interior values of the range: rapid favours its ends
+		case 11, 12:
 			// many cells (counts around powers of two: a wrapper that batches or caps its goroutines has its
 			// fencepost there); few parameter sets and input blocks, short series
 			c.N = rapid.SampledFrom([]int{31, 32, 33, 34, 63, 64, 65, 100, 128, 129, 130, 255, 256, 257}).Draw(t, "manyN")
@@ -110,10 +110,10 @@ func genWith(model string, minN, maxN int, exact bool) func(t *rapid.T) Case {
 			c.T = rapid.IntRange(1, 6).Draw(t, "shortT")
 			P = rapid.SampledFrom([]int{1, 2, 3, 5}).Draw(t, "fewP")
 			B = rapid.SampledFrom([]int{1, 2, 3}).Draw(t, "fewB")
-		case 2, 3:
+		case 13, 14, 16:
 			// more parameter sets than cells: the extra sets are simply not used (they still size the tables)
 			P = c.N + rapid.IntRange(1, 3).Draw(t, "moreP")
-		case 4:
+		case 15:
 			// more input blocks than cells
 			B = c.N + rapid.IntRange(1, 3).Draw(t, "moreB")
 		}
